@@ -38,7 +38,8 @@ RULE = ('fshift: every length n = 2..256 (thorough: every n <= 512, all primes <
         'band-limited harmonics, wavelet); every case is run in float64 AND float32 on the same (float32-representable) samples and '
         'compared with the Float twin of the Lean model; shape, dtype and "input untouched" are asserted on each; the full impulse basis '
         '(identity matrix, one 2-D call) for n <= 48 (thorough 96); 2-D arrays (1..9 x 2..24) with scalar and per-trace shifts along '
-        'axes 0, 1, -1, -2; error branches (n < 2, axis out of range, per-trace vector of the wrong size); np.roll vs the model roll '
+        'axes 0, 1, -1, -2, the per-trace vectors being all-distinct random, integer, REPEATED across traces (real ADC tables '
+        'neuropixel.adc_shifts k/13 and k/16 incl. 384 traces, tiled random fractions, all-equal e.g. 1/3) or of the wrong size; error branches (n < 2, axis out of range, per-trace vector of the wrong size); np.roll vs the model roll '
         '(bit exact); scipy rfft/irfft vs their model sums on random complex half spectra; parabolic_max on integer-valued (bit exact) '
         'and random arrays incl. edge maxima, ties, plateaus, the 2-D branch; numeric oracle of the delay estimate on Ricker/Morlet '
         'wavelets. A case is non-trivial when the shift is non-zero and the signal is not constant; distinct by its description.')
@@ -324,14 +325,51 @@ def _cases_2d(ctx):
         axis = int(rng.choice([0, 1, -1, -2]))
         n = b if axis in (1, -1) else a
         ntr = a if axis in (1, -1) else b
-        mode = str(rng.choice(['scalar', 'pertrace', 'pertrace', 'pertrace_int', 'wrongsize'], p=[.25, .4, .15, .15, .05]))
+        mode = str(rng.choice(['scalar', 'pertrace', 'pertrace_int', 'wrongsize', 'adc', 'repeat', 'allequal'],
+                              p=[.15, .25, .1, .05, .15, .15, .15]))
+        if mode in ('adc', 'repeat', 'allequal') and ntr < 2:      # repeated shifts need at least two traces
+            if axis in (1, -1):
+                a = ntr = int(rng.integers(2, 10))
+            else:
+                b = ntr = int(rng.integers(2, 25))
         cases.append({'op': 'fshift2', 'nrow': a, 'ncol': b, 'axis': axis, 'mode': mode, 'seed': int(rng.integers(0, 2 ** 31)),
                       'n': n, 'ntr': ntr})
+    # many traces sharing the few distinct shifts of a real probe (ADC tables: 12 or 16 distinct values over 384 channels)
+    for k in range(ctx.n(10, 60)):
+        ntr = int(rng.choice([26, 32, 48, 96, 384])); n = int(rng.integers(4, 17)) if ntr < 384 else int(rng.integers(4, 9))
+        axis = int(rng.choice([0, 1, -1, -2]))
+        a, b = (ntr, n) if axis in (1, -1) else (n, ntr)
+        cases.append({'op': 'fshift2', 'nrow': a, 'ncol': b, 'axis': axis, 'mode': str(rng.choice(['adc', 'repeat'])),
+                      'seed': int(rng.integers(0, 2 ** 31)), 'n': n, 'ntr': ntr})
     for axis in (2, -3):
         cases.append({'op': 'fshift2', 'nrow': 3, 'ncol': 8, 'axis': axis, 'mode': 'scalar', 'seed': 5, 'n': 8, 'ntr': 3})
     cases.append({'op': 'fshift2', 'nrow': 1, 'ncol': 8, 'axis': 0, 'mode': 'scalar', 'seed': 6, 'n': 1, 'ntr': 8})
     cases.append({'op': 'fshift2', 'nrow': 4, 'ncol': 1, 'axis': 1, 'mode': 'pertrace', 'seed': 7, 'n': 1, 'ntr': 4})
     return cases
+
+
+def adc_table(version):
+    """h['sample_shift'] of a real probe: neuropixel.adc_shifts (k/13 for NP1 / NPultra, k/16 for NP2), 384 channels"""
+    import neuropixel
+    return np.asarray(neuropixel.adc_shifts(version=version)[0], dtype=float)
+
+
+def repeated_shifts(r, mode, ntr, n):
+    """per-trace shift vectors in which values REPEAT across traces, as the ADC sample shifts of a probe do"""
+    if mode == 'adc':
+        tab = adc_table([1, 2, 'NPultra'][int(r.integers(0, 3))])
+        i0 = int(r.integers(0, max(1, len(tab) - ntr + 1)))
+        s = np.resize(tab[i0:i0 + ntr], ntr) * float(r.choice([1.0, -1.0, -1.0, 2.0]))    # destriping applies -sample_shift
+    elif mode == 'repeat':
+        k = max(1, ntr // int(r.integers(2, 5)))                 # every value is used by >= 2 traces
+        vals = np.concatenate([r.uniform(-max(n, 1), max(n, 1), size=k), [1 / 3, -2 / 3, 5 / 13, 1 / 7]])[:k] if r.random() < 0.5 \
+            else r.uniform(-1, 1, size=k)
+        s = np.resize(np.repeat(vals, 2), ntr)
+        if r.random() < 0.5:
+            s = r.permutation(s)
+    else:
+        s = np.full(ntr, float(r.choice([1 / 3, -1 / 3, 2 / 13, 7 / 16, 0.0005, float(r.uniform(-n, n))])))
+    return np.asarray(s, dtype=float)
 
 
 def _build_2d(c):
@@ -349,6 +387,8 @@ def _build_2d(c):
         s = r.uniform(-max(n, 1), max(n, 1), size=ntr)
     elif mode == 'pertrace_int':
         s = r.integers(-n, n + 1, size=ntr).astype(float)
+    elif mode in ('adc', 'repeat', 'allequal'):
+        s = repeated_shifts(r, mode, ntr, n)
     else:
         s = r.uniform(-1, 1, size=ntr + int(r.choice([1, 2, -1]) if ntr > 1 else 1))
     return w, s, ('V', _bits(s))
@@ -759,6 +799,44 @@ def oracle_2d(a, b, axis, seed, dtype):
     return None
 
 
+def oracle_pertrace(w, s, axis, dtype):
+    """each trace receives ITS OWN shift: result trace i = scalar fshift of trace i by s[i] (= np.roll for an integer s[i]);
+    per-trace shifts compose (three times the same vector = once three times the vector) on odd n or Nyquist-free traces"""
+    from ibldsp.fourier import fshift
+    w = np.asarray(w, dtype=dtype); s = np.asarray(s, dtype=float)
+    w0 = w.copy()
+    inp = {'w': w0.tolist(), 's': s.tolist(), 'axis': axis, 'dtype': np.dtype(dtype).name}
+    try:
+        y = fshift(w, s.copy(), axis=axis)
+    except Exception as e:  # noqa
+        return inp, f'fshift raised {type(e).__name__}: {e}', 'per-trace shifted array'
+    if y.shape != w0.shape or y.dtype != w0.dtype:
+        return inp, f'result shape {y.shape} dtype {y.dtype}', f'shape {w0.shape} dtype {w0.dtype}'
+    if not np.array_equal(w, w0):
+        return inp, 'input array modified', 'input untouched'
+    rows = axis in (1, -1)
+    tol = 4 * _tol(dtype, w0)
+    for i in range(len(s)):
+        tr = (w0[i, :] if rows else w0[:, i]).copy()
+        got = (y[i, :] if rows else y[:, i]).astype(float)
+        ref = fshift(tr.copy(), float(s[i])).astype(float)
+        if float(s[i]) == int(s[i]):
+            ref = np.roll(tr, int(s[i])).astype(float)
+        if np.max(np.abs(got - ref)) > tol:
+            what = f'np.roll(trace, {int(s[i])})' if float(s[i]) == int(s[i]) else f'fshift(trace, {float(s[i])!r}) (scalar shift)'
+            return inp, f'trace {i} of fshift(w, s, axis={axis}) = {got.tolist()}', f'{what} = {ref.tolist()}'
+    n = w0.shape[axis]
+    nyq = np.abs(np.sum(w0 * np.where(np.arange(n) % 2 == 0, 1.0, -1.0).reshape((1, -1) if rows else (-1, 1)), axis=axis)).max() if n % 2 == 0 else 0.0
+    if nyq < 1e-12:
+        z = fshift(fshift(fshift(w0.copy(), s.copy(), axis=axis), s.copy(), axis=axis), s.copy(), axis=axis).astype(float)
+        z1 = fshift(w0.copy(), 3 * s, axis=axis).astype(float)
+        if np.all(3 * s == np.round(3 * s)):
+            z1 = np.stack([np.roll(w0[i, :] if rows else w0[:, i], int(round(3 * s[i]))) for i in range(len(s))], axis=0 if rows else 1).astype(float)
+        if np.max(np.abs(z - z1)) > 3 * tol:
+            return inp, f'three successive per-trace shifts by s = {z.tolist()}', f'one shift by 3*s = {z1.tolist()}'
+    return None
+
+
 def oracle_pmax(x):
     """parabolic_max: exact on samples of a parabola around an interior maximum; edge maxima returned as they are"""
     from ibldsp.utils import parabolic_max
@@ -832,6 +910,10 @@ def search(ctx, reasons):
         elif c.get('op') == 'fshift2':
             for dt in (np.float64, np.float32):
                 add(guarded(oracle_2d, c['nrow'], c['ncol'], c['axis'], c['seed'], dt), 'harness/props/c07.py oracle_2d on the disagreeing case')
+            if c.get('mode') in ('pertrace', 'pertrace_int', 'adc', 'repeat', 'allequal') and c['n'] >= 2 and c['nrow'] * c['ncol'] <= 600:
+                w, sv, _ = _build_2d(c)
+                for dt in (np.float64, np.float32):
+                    add(guarded(oracle_pertrace, w, sv, c['axis'], dt), 'harness/props/c07.py oracle_pertrace(w, s, axis, dtype) on the disagreeing case')
         elif c.get('op') == 'pmax':
             add(guarded(oracle_pmax, c['x']), 'harness/props/c07.py oracle_pmax(x)')
         elif c.get('op') == 'pmax2d':
@@ -869,6 +951,28 @@ def search(ctx, reasons):
                     res = guarded(oracle_2d, a, b, axis, 3, dt)
                     if res:
                         add(res, 'harness/props/c07.py oracle_2d(nrow, ncol, axis, seed, dtype)'); hit = True
+            if hit:
+                break
+        # repeated (non-distinct) per-trace shifts, smallest arrays first
+        hit = False
+        third = 1.0 / 3.0
+        for n in (3, 2, 5, 4, 7):
+            for ntr in (2, 3):
+                for svals in ([third] * ntr, [5 / 13] * ntr, [third, third, -2 / 3][:ntr], [0.0005] * ntr, [1.0] * ntr):
+                    for axis in (1, 0):
+                        tr = np.arange(1, n + 1, dtype=float) if n % 2 else np.array([1.0, 1.0] * (n // 2)) * np.arange(1, n + 1)
+                        if n % 2 == 0:
+                            tr = np.repeat(np.arange(1, n // 2 + 1, dtype=float), 2)      # Nyquist-free
+                        w = np.stack([tr * (k + 1) for k in range(ntr)])
+                        w = w if axis == 1 else w.T.copy()
+                        for dt in (np.float64, np.float32):
+                            res = guarded(oracle_pertrace, w, svals, axis, dt)
+                            if res:
+                                add(res, 'harness/props/c07.py oracle_pertrace(w, s, axis, dtype)'); hit = True
+                    if hit:
+                        break
+                if hit:
+                    break
             if hit:
                 break
     if 'pmax' in ops or 'pmax2d' in ops or 'delay' in ops or 'cluster' in ops or not found:
